@@ -27,6 +27,7 @@ KINDS = ["call", "notify", "batch", "invalid", "fail", "slow", "truncated", "sys
 class Harness(object):
     def __init__(self, server, pool, family, clients, lifecycle, gran):
         self.other_pool = server.endswith("+other-pool")
+        self.second_server = server.endswith("+second-server")
         server = server.split("+")[0]
         self.server_kind, self.pool_cfg, self.family = server, pool, family
         self.clients = clients  # tuple of tuples of request kinds
@@ -193,6 +194,14 @@ class Harness(object):
             other = tp.ThreadPool(2, 1, logname="other-pool")
             other.start()
             srv.set_notification_pool(other)
+        srv2 = serving2 = None
+        if self.second_server:
+            # a second server of the same kind alive in the process (its own default pool): closing the first leaves it serving
+            cls2 = SS.SimpleJSONRPCServer if self.server_kind == "simple" else SS.PooledJSONRPCServer
+            srv2 = cls2(("srv2.test", 8081), logRequests=False, config=cfg)
+            srv2.register_function(self.echo, "echo")
+            serving2 = T(target=srv2.serve_forever, name="serving2", kwargs={"poll_interval": 0.5})
+            serving2.start()
         life = self.lifecycle
         serving = None
         self.phase = "constructed"
@@ -232,6 +241,25 @@ class Harness(object):
         if other is not None:
             self.blocked_in = "stop-other-pool"
             other.stop()
+        if srv2 is not None:
+            # the second server still answers after the first one has been closed
+            self.phase = "second-server"
+            self.blocked_in = "call-second-server"
+            try:
+                p2 = jsonrpclib.ServerProxy("http://srv2.test:8081/")
+                r2 = p2.echo("second-1")
+                p2("close")()
+                if r2 != "second-1" or self.execs.get("second-1") != 1:
+                    self.v.append(("C12/second-server-affected-by-closing-the-first", "the second server answered %r (executions %r)" % (r2, self.execs.get("second-1"))))
+            except sched.Abort:
+                raise
+            except Exception as ex:
+                self.v.append(("C12/second-server-affected-by-closing-the-first", "call to the second server raised %r" % (ex,)))
+            self.blocked_in = "shutdown-second-server"
+            srv2.shutdown()
+            srv2.server_close()
+            serving2.join()
+            self.phase = "closed"
         self.blocked_in = None
         self.finished = True
 
@@ -311,6 +339,8 @@ class Harness(object):
             v.append(("C12/listening-socket-open-after-server_close", "the listening socket is still open"))
         if self.server_kind == "pooled":
             alive = [t.name for t in s.threads if t.state == "run" and t.name.startswith(("PooledJSONRPCServer", "jsonrpclib.threadpool"))]
+            if self.second_server:
+                alive = []  # judged through the second server's own close above
             if alive:
                 v.append(("C12/pool-worker-alive-after-server_close", "request-pool workers still alive: %r" % (alive,)))
         obs = (tuple(sorted(self.results.items())), tuple(sorted(self.execs.items())))
@@ -339,6 +369,10 @@ def extra_harnesses(tier):
     for server, pool in (("pooled+other-pool", None), ("pooled+other-pool", (1, 1)), ("simple+other-pool", None)):
         h.append(spec(server, pool, "tcp", (("call", "notify"),), "normal") + ((1 if tier == "thorough" else 0),))
         h.append(spec(server, pool, "tcp", (), "normal") + (1,))
+    # two servers of the same kind alive at once: closing one leaves the other serving
+    for server in ("pooled+second-server", "simple+second-server"):
+        h.append(spec(server, None, "tcp", (("call",),), "normal") + (1,))
+        h.append(spec(server, None, "tcp", (), "normal") + (1,))
     # many simultaneous clients of slow methods (beyond the default request pool's 30 workers), default schedule only
     for n in ((70,) if tier == "quick" else (35, 70, 130)):
         h.append(spec("pooled", None, "tcp", ((("nap",),) * n), "normal") + (0, {"F": 0}))
@@ -404,7 +438,7 @@ META = {
     "serial_legs": ("schedules",),
     "technique": "stateless model checking of the real servers, request handler and clients over an in-memory network whose blocking operations are "
     "scheduling points: exhaustive schedule enumeration with iterative preemption bounding, non-termination decided by the scheduler's deadlock verdict",
-    "rule": "additionally: a method taking 40 virtual seconds over TCP and Unix sockets (socket timeouts are honoured in virtual time); servers next to a second started pool (their notification pool), 70 (thorough 35/70/130) simultaneous clients of a slow method on "
+    "rule": "additionally: two servers of the same kind alive at once (the first is closed, the second must still answer); a method taking 40 virtual seconds over TCP and Unix sockets (socket timeouts are honoured in virtual time); servers next to a second started pool (their notification pool), 70 (thorough 35/70/130) simultaneous clients of a slow method on "
     "the default request pool, 40 on a plain server, 12 x (call, slow call) on a (2,0) pool over Unix sockets - default hand-over order at blocking points (F=0), no preemption; 3 clients of the slow method on a (1,0) pool with the ordinary ladder; harness = server (Simple, Pooled with default pool (30,0) or user pools (1,1) (1,0) (2,0)) x listener (TCP, Unix) x client programs (1-2 clients "
     "(thorough 3), 1-2 requests each from {call, notification, batch, malformed body, truncated body with half-close, failing method, method raising SystemExit, gated slow method}) x life-cycle (serve/shutdown/"
     "server_close, server_close without serving, double shutdown and close, shutdown with a gated request in flight); every schedule up to the per-harness "
